@@ -2,6 +2,8 @@
 Task.split, Submitter)."""
 import itertools
 import json
+import shutil
+import tempfile
 
 from .lib import coqio
 from .lib import state_gen as G
@@ -127,7 +129,7 @@ def gen_cases(ctx):
         made += 1
         yield t, sh, "state", "random5-7"
     # end to end
-    n = ctx.budget(70, 600)
+    n = ctx.budget(55, 500)
     made = 0
     while made < n:
         k = rng.choice([1, 2, 2, 3, 3, 3, 4, 4, 4, 5, 5, 6])
@@ -138,12 +140,38 @@ def gen_cases(ctx):
             continue
         made += 1
         yield t, sh, "e2e", "e2e"
+    # sequences: 2-3 submissions of the same task and the same values with different splitter trees into ONE cache root
+    # (and one process): a neighbour with one bracket type flipped, a nested group spliced into its parent (equivalent
+    # or not), an equivalent re-bracketing.  Each submission must still be its own splitter's expansion.
+    for q in range(ctx.budget(16, 200)):
+        k = rng.choice([2, 3, 3, 3, 4, 4])
+        base = G.relabel(rng.choice(G.tree_shapes(k)), (lambda perm: (lambda i: perm[i]))(rng.sample(range(k), k)))
+        n = rng.choice([2, 2, 3])
+        sh = [[n]] * k
+        seq = [base]
+        for _ in range(rng.choice([1, 2])):
+            src = rng.choice(seq)
+            v = rng.choice([G.flip_node, G.flip_node, G.merge_nested, G.regroup])(rng, src)
+            if v is not None and json.dumps(v) not in [json.dumps(x) for x in seq]:
+                seq.append(v)
+        if len(seq) < 2:
+            continue
+        rng.shuffle(seq)
+        for t in seq:
+            nj = njobs(t, sh)
+            if nj is not None and nj > 81:
+                break
+        else:
+            for t in seq:
+                yield t, [list(x) for x in sh], "e2e", "e2e-sequence", "seq%d" % q
 
 
-def observe(tree, shapes, level):
-    """run the implementation; returns (obs, python-side failure note or None, details)"""
+def observe(tree, shapes, level, cache_root=None):
+    """run the implementation; returns (obs, python-side failure note or None, details).
+    cache_root: shared cache directory of a sequence of submissions (results of earlier submissions with equal job
+    inputs may legitimately be reused there, so the number of task-body executions is not compared)"""
     if level == "e2e":
-        r = G.run_e2e(tree, shapes)
+        r = G.run_e2e(tree, shapes, cache_root=cache_root)
         note = None
         if r["obs"][0] == "exc":
             note = "unexpected exception"
@@ -151,7 +179,7 @@ def observe(tree, shapes, level):
             note = "a task body was executed although the split was rejected"
         elif r["obs"][0] == "ok" and not r["const_ok"]:
             note = "a job received a wrong value for a field (non-split field changed, or element of another field)"
-        elif r["obs"][0] == "ok" and r["bodies"] != len(r["obs"][1]):
+        elif r["obs"][0] == "ok" and cache_root is None and r["bodies"] != len(r["obs"][1]):
             note = "number of task-body executions differs from the number of outputs"
         return r["obs"], note, {"bodies": r["bodies"], "exc": r["exc"], "leftover_dirs": r["leftover"], "out": r["out"]}
     r = G.run_state(tree, shapes)
@@ -168,9 +196,30 @@ def run(ctx):
     dist = {"source": {}, "fields": {}, "jobs": {"0": 0, "1": 0, "2-9": 0, "10-99": 0, "100+": 0}, "rejected_shape": 0,
             "with_inner": 0, "nd_shapes": 0, "wrapped_singletons": 0, "e2e_runs": 0, "e2e_rejections_leaving_workflow_dir": 0}
     seen, nontrivial = set(), 0
-    for tree, shapes, level, source in gen_cases(ctx):
-        obs, note, det = observe(tree, shapes, level)
+    groups, e2e_history = {}, {}
+    for item in gen_cases(ctx):
+        tree, shapes, level, source = item[:4]
+        group = item[4] if len(item) > 4 else None
+        croot = None
+        if group is not None:
+            if group not in groups:
+                for d in groups.values():           # one sequence at a time: drop the previous sequence's cache
+                    shutil.rmtree(d, ignore_errors=True)
+                groups.clear()
+                groups[group] = tempfile.mkdtemp(prefix="verif_c01_seq_")
+            croot = groups[group]
+        obs, note, det = observe(tree, shapes, level, cache_root=croot)
         m = {"tree": tree, "shapes": shapes, "level": level, "source": source, "obs": obs, "details": det}
+        if level == "e2e":
+            # earlier end-to-end submissions of this run (same process) with the same fields and values: what a leak
+            # between splits could come from; stored with the case so that a replay is self-contained
+            hkey = (tuple(sorted(G.leaves(tree))), json.dumps([shapes[f] for f in sorted(G.leaves(tree))]))
+            m["before"] = [{"tree": t0, "same_cache_root": (g0 is not None and g0 == group)}
+                           for t0, g0 in e2e_history.get(hkey, [])][-12:]
+            e2e_history.setdefault(hkey, []).append((tree, group))
+        if group is not None:
+            m["sequence"] = group
+            dist["sequence_submissions"] = dist.get("sequence_submissions", 0) + 1
         dist["source"][source] = dist["source"].get(source, 0) + 1
         k = len(G.leaves(tree))
         dist["fields"][str(k)] = dist["fields"].get(str(k), 0) + 1
@@ -196,6 +245,8 @@ def run(ctx):
             continue
         cases.append(coq_case(tree, shapes, obs))
         meta.append(m)
+    for d in groups.values():
+        shutil.rmtree(d, ignore_errors=True)
     res = coqio.run_cases(ctx.scratch, "c01", IMPORTS, "case_t", cases, {"tie": "tie_ok", "spec": "spec_ok"},
                           extra=EXTRA, shard=400)
     out = Outcome(evaluations=len(meta) + len(pyfail), distinct_nontrivial=nontrivial, rule=RULE,
@@ -214,8 +265,9 @@ def run(ctx):
             m = meta[i]
             out.failures.append(Failure(
                 case=case_json(m), observed={"obs": m["obs"], **m["details"]}, expected=expected(ctx, m, kind), kind=kind,
-                note=("jobs / per-job inputs differ from the outer/inner product expansion (%s level)" % m["level"])
-                if kind == "spec" else "model/impl"))
+                note=("jobs / per-job inputs differ from the outer/inner product expansion (%s level%s)" % (
+                    m["level"], ", after other splitters over the same values were submitted into the same cache root"
+                    if m.get("sequence") else "")) if kind == "spec" else "model/impl"))
     return out
 
 
@@ -240,7 +292,12 @@ def sample(m):
 
 
 def case_json(m):
-    return {"tree": m["tree"], "splitter": G.show(m["tree"]), "shapes": m["shapes"], "level": m["level"]}
+    c = {"tree": m["tree"], "splitter": G.show(m["tree"]), "shapes": m["shapes"], "level": m["level"]}
+    if m.get("before"):
+        # earlier submissions of the same task and values (same process; same cache root where flagged)
+        c["submitted_before_in_the_same_process"] = [
+            {"tree": b["tree"], "splitter": G.show(b["tree"]), "same_cache_root": b["same_cache_root"]} for b in m["before"]]
+    return c
 
 
 def expected(ctx, m, kind):
@@ -258,7 +315,19 @@ def replay(ctx, payload):
     t = G.from_json(c["tree"])
     shapes = c["shapes"]
     print("splitter:", G.show(t), "shapes:", shapes, "level:", c.get("level", "state"))
-    obs, note, det = observe(t, shapes, c.get("level", "state"))
+    croot = None
+    before = c.get("submitted_before_in_the_same_process") or []
+    if any(b["same_cache_root"] for b in before):
+        croot = tempfile.mkdtemp(prefix="verif_c01_seq_")
+    for b in before:
+        bt = G.from_json(b["tree"])
+        print("  submitted first (%s):" % ("same cache root" if b["same_cache_root"] else "own cache root, same process"),
+              G.show(bt), "->", observe(bt, shapes, "e2e", cache_root=croot if b["same_cache_root"] else None)[0])
+    try:
+        obs, note, det = observe(t, shapes, c.get("level", "state"), cache_root=croot)
+    finally:
+        if croot:
+            shutil.rmtree(croot, ignore_errors=True)
     print("implementation:", obs, det, note or "")
     vals = coqio.eval_terms(ctx.scratch, "replay", IMPORTS,
                             ["rows (prepare_states (envof %s) %s)" % (G.coq_shapes(shapes), G.to_coq(t)),
